@@ -50,8 +50,9 @@ def fmt(s):
 class Units:
     """whole-crate fixpoint of field / parameter units; `unit(body, expr)` afterwards"""
 
-    def __init__(self, ctx, seeds=None, rounds=8):
+    def __init__(self, ctx, seeds=None, rounds=8, ret_seeds=None):
         self.ctx = ctx
+        self.ret_seeds = {k: frozenset(v) for k, v in (ret_seeds or {}).items()}      # fn path -> unit of its result, decided elsewhere
         self.facts = ctx.facts
         self.cg = ctx.cg
         self.field_units = {}       # 'Adt.field' -> frozenset ; 'elem:Adt.field' for elements of a collection field
@@ -229,6 +230,8 @@ class Units:
         return EMPTY
 
     def _ret_unit(self, callee, aenv, depth):
+        if callee.path in self.ret_seeds:
+            return self.ret_seeds[callee.path]
         key = (callee.path, tuple(sorted((k, tuple(sorted(v))) for k, v in aenv.items() if v)))
         if key in self._ret_cache:
             return self._ret_cache[key]
